@@ -676,6 +676,10 @@ func ruleJoin(r *Report) {
 		return
 	}
 	bad := ""
+	isWal := map[ssa.Instruction]bool{}
+	for _, c := range walCloses {
+		isWal[c.Instr] = true
+	}
 	for _, c := range append(append([]Site{}, tableCloses...), walCloses...) {
 		lc := liftSites([]Site{c}, cl)
 		if lc == nil {
@@ -686,6 +690,11 @@ func ruleJoin(r *Report) {
 			}
 		}
 		for _, d := range doneFields {
+			// the log is the flusher's business (it removes flushed log files): closing it has to wait for the flusher
+			// only — the compactor touches tables, not the log
+			if isWal[c.Instr] && !strings.Contains(strings.ToLower(d), "flush") {
+				continue
+			}
 			for _, rv := range recvs[d] {
 				lr := liftSites([]Site{rv}, cl)
 				if lc == nil || lr == nil {
@@ -796,6 +805,9 @@ func closedOnPaths(p *Prog, fn *ssa.Function, sites []Site, field string, strict
 					return
 				}
 				if _, hasErr, _ := errResults(ci); hasErr && !errConstructors(CalleeKey(ci)) && reachableFromSite(c, rs) {
+					if sc := ci.Common().StaticCallee(); sc != nil && inModule(sc) && sc != fn && pureGuard(sc, 0) {
+						return
+					}
 					// an immediately called function literal that fails only through its state guards (every error
 					// return lies before its first fallible step) is itself a guard
 					if mc, isMC := ci.Common().Value.(*ssa.MakeClosure); isMC {
@@ -1016,10 +1028,36 @@ func failsOnlyAsGuard(fn *ssa.Function) bool {
 				return
 			}
 			if _, hasErr, _ := errResults(ci); hasErr && !errConstructors(CalleeKey(ci)) && reachableFromSite(c, rs) {
+				// a helper of the module that is itself nothing but a state guard (no fallible step of its own)
+				if sc := ci.Common().StaticCallee(); sc != nil && inModule(sc) && sc != fn && pureGuard(sc, 0) {
+					return
+				}
 				ok = false
 			}
 		})
 	}
+	return ok
+}
+
+// pureGuard: the module function makes no call that can fail (nor any call into the module that does): its error results
+// are verdicts about state it reads.
+func pureGuard(fn *ssa.Function, depth int) bool {
+	if fn == nil || fn.Blocks == nil || depth > 2 {
+		return false
+	}
+	ok := true
+	eachInstr(fn, func(c Site) {
+		ci, isC := c.Instr.(ssa.CallInstruction)
+		if !isC || !ok {
+			return
+		}
+		if _, hasErr, _ := errResults(ci); hasErr && !errConstructors(CalleeKey(ci)) {
+			if sc := ci.Common().StaticCallee(); sc != nil && inModule(sc) && sc != fn && pureGuard(sc, depth+1) {
+				return
+			}
+			ok = false
+		}
+	})
 	return ok
 }
 
@@ -1097,6 +1135,65 @@ func ruleReplayClosesPerFile(r *Report) {
 			}
 		})
 	}
+	// a per-file helper that registers the Close of what the factory handed out (defer func() { … reader.Close() }()): the
+	// reader is owned from the defer statement on, and it is closed when the helper returns, that is once per file
+	deferOwned := map[*ssa.BasicBlock]bool{}
+	if holder != fn {
+		var rd0 ssa.Value
+		for _, rf := range *create.Instr.(ssa.Value).Referrers() {
+			if ex, ok := rf.(*ssa.Extract); ok && ex.Index == 0 {
+				rd0 = ex
+			}
+		}
+		eachInstr(holder, func(s Site) {
+			d, ok := s.Instr.(*ssa.Defer)
+			if !ok || rd0 == nil {
+				return
+			}
+			mc, isMC := d.Call.Value.(*ssa.MakeClosure)
+			if !isMC {
+				// defer reader.Close() directly
+				if d.Call.IsInvoke() && d.Call.Method.Name() == "Close" && valueDependsOn(d.Call.Value, func(x ssa.Value) bool { return x == rd0 }) {
+					deferOwned[s.Block] = true
+				}
+				return
+			}
+			g, isF := mc.Fn.(*ssa.Function)
+			if !isF {
+				return
+			}
+			eachInstr(g, func(t Site) {
+				c, isC := t.Instr.(ssa.CallInstruction)
+				if !isC || !c.Common().IsInvoke() || c.Common().Method.Name() != "Close" {
+					return
+				}
+				u, isU := c.Common().Value.(*ssa.UnOp)
+				if !isU || u.Op != token.MUL {
+					return
+				}
+				fv, isFV := u.X.(*ssa.FreeVar)
+				if !isFV {
+					return
+				}
+				for i, f := range g.FreeVars {
+					if f != fv || i >= len(mc.Bindings) {
+						continue
+					}
+					cell := mc.Bindings[i]
+					if refs := cell.Referrers(); refs != nil {
+						for _, rf := range *refs {
+							if st, isSt := rf.(*ssa.Store); isSt && st.Addr == cell && st.Val == rd0 {
+								deferOwned[s.Block] = true
+							}
+						}
+					}
+				}
+			})
+		})
+		if len(deferOwned) > 0 {
+			closed = true
+		}
+	}
 	// from the moment the factory handed the reader out, somebody owns it on every way out of the function: it is stored
 	// into the variable the closing code reads, or closed, before anything can leave (the reader's file is open since the
 	// factory call, not since Open — a break for a header-less last file leaves too)
@@ -1130,11 +1227,27 @@ func ruleReplayClosesPerFile(r *Report) {
 						owned[s.Block] = true
 					}
 				case ssa.CallInstruction:
-					if x.Common().IsInvoke() && x.Common().Method.Name() == "Close" && x.Common().Value == rd {
-						owned[s.Block] = true
+					if x.Common().IsInvoke() && x.Common().Method.Name() == "Close" {
+						v := x.Common().Value
+						if v == rd {
+							owned[s.Block] = true
+						}
+						// … or what is read from the variable the reader was put into (a captured variable is a cell)
+						if u, isU := v.(*ssa.UnOp); isU && u.Op == token.MUL && isCell(u.X) {
+							if refs := u.X.Referrers(); refs != nil {
+								for _, rf := range *refs {
+									if st, isSt := rf.(*ssa.Store); isSt && st.Addr == u.X && st.Val == rd {
+										owned[s.Block] = true
+									}
+								}
+							}
+						}
 					}
 				}
 			})
+		}
+		for b := range deferOwned {
+			owned[b] = true
 		}
 		removed := map[Edge]bool{}
 		for b := range owned {
@@ -1530,6 +1643,17 @@ func ruleAcquireFailureCloses(r *Report, pkgs []string) {
 						if st == s.Block {
 							from = s.Idx + 1
 						}
+						// the error of the acquisition may be looked at a second time further down (it travels in a
+						// variable): where a release lies in front of that place on every path, there is nothing left
+						released := false
+						for rb := range releaseBlocks {
+							if rb != st && rb != s.Block && dominates(rb, st) && blockReaches(s.Block, rb) {
+								released = true
+							}
+						}
+						if released {
+							continue
+						}
 						seen[st] = true
 						walk(st, from)
 					}
@@ -1593,7 +1717,10 @@ func ruleCloseReleasesAll(r *Report) {
 	var rel []Site
 	var names []string
 	var deferred []bool
-	collect := func(g *ssa.Function, at *Site) {
+	inner := map[int]Site{} // releases inside a literal that is called on the spot: the release itself
+	var collect func(g *ssa.Function, at *Site)
+	inlineLit := false
+	collect = func(g *ssa.Function, at *Site) {
 		eachInstr(g, func(s Site) {
 			c, ok := s.Instr.(ssa.CallInstruction)
 			if !ok {
@@ -1615,7 +1742,10 @@ func ruleCloseReleasesAll(r *Report) {
 				isDef = true
 			}
 			if at != nil {
-				site, isDef = *at, true
+				site, isDef = *at, !inlineLit
+				if inlineLit {
+					inner[len(rel)] = s
+				}
 			}
 			if _, f, _, isF := loadOfField(recv); isF && f == "wal" {
 				rel, names, deferred = append(rel, site), append(names, "the WAL"), append(deferred, isDef)
@@ -1643,6 +1773,21 @@ func ruleCloseReleasesAll(r *Report) {
 			}
 		}
 	})
+	// releases inside a function literal that is called on the spot happen where that call stands
+	eachInstr(fn, func(s Site) {
+		c, ok := s.Instr.(*ssa.Call)
+		if !ok {
+			return
+		}
+		if mc, isMC := c.Call.Value.(*ssa.MakeClosure); isMC {
+			if g, isF := mc.Fn.(*ssa.Function); isF {
+				ss := s
+				inlineLit = true
+				collect(g, &ss)
+				inlineLit = false
+			}
+		}
+	})
 	if len(rel) < 2 {
 		r.Bad(rule, key, fn.Pos(), "DB.Close does not release both the WAL and the table readers")
 		return
@@ -1666,7 +1811,34 @@ func ruleCloseReleasesAll(r *Report) {
 			for _, su := range b.Block.Succs {
 				removed[Edge{b.Block, su}] = true
 			}
+			// a release inside a literal called on the spot: when every way out of the literal behind the release returns
+			// nil, the failure edge of the literal's result lies in front of the release, not behind it
+			if in, ok := inner[i]; ok {
+				g := in.Fn
+				gi := errorResultIndex(g)
+				allNil := gi >= 0
+				for _, rs := range returnsOf(g) {
+					if reachableFromSite(in, rs) {
+						if k, _ := returnErrOperand(rs.Instr.(*ssa.Return), gi); k != "nil" {
+							allNil = false
+						}
+					}
+				}
+				if allNil {
+					if cv, isV := a.Instr.(ssa.Value); isV {
+						al := map[ssa.Value]bool{cv: true}
+						for _, blk := range liveBlocks(fn) {
+							if v, _, nonNil, isT := nilTest(blk); isT && (al[v] || al[stripIface(v)]) {
+								removed[Edge{blk, nonNil}] = true
+							}
+						}
+					}
+				}
+			}
 			for _, su := range a.Block.Succs {
+				if removed[Edge{a.Block, su}] {
+					continue
+				}
 				reach := reachFrom(su, removed)
 				for _, rs := range returnsOf(fn) {
 					if reach[rs.Block] && rs.Block != b.Block {
@@ -1953,4 +2125,23 @@ func ruleOpenFailureReleases(r *Report) {
 	if n == 0 {
 		r.Missing(rule, rule+"/none", "no Open method acquires handles into its receiver")
 	}
+}
+
+// blockReaches: b is reachable from a along at least one edge.
+func blockReaches(a, b *ssa.BasicBlock) bool {
+	seen := map[*ssa.BasicBlock]bool{}
+	work := append([]*ssa.BasicBlock(nil), a.Succs...)
+	for len(work) > 0 {
+		x := work[len(work)-1]
+		work = work[:len(work)-1]
+		if seen[x] {
+			continue
+		}
+		seen[x] = true
+		if x == b {
+			return true
+		}
+		work = append(work, x.Succs...)
+	}
+	return false
 }
